@@ -6,6 +6,7 @@ import (
 	"errors"
 	"fmt"
 	"net"
+	"net/http"
 	"os"
 	"runtime"
 	"runtime/debug"
@@ -32,7 +33,7 @@ import (
 
 func TestMain(m *testing.M) {
 	bk.SetupEnv()
-	ev.C().Rule("fault enumeration + rapid: per HTTP backend variant (datadog, influxdb v1/v2, newrelic infra/insights/metrics, otlp, cloudwatch) every per-attempt outcome script of length <= 3 over {2xx, error status, transport error} x tail {recovers, keeps failing until the retry window ends} x batches per flush {0,1,3} x cancellation point {none, before the call, when the k-th attempt starts, while an attempt waits for its retry timer}, on a mock clock advanced whenever no callback has arrived; then random longer scripts, partly through a real MetricFlusher; sender.Sender with scripted connect/write outcomes; graphite and statsdaemon against loopback listeners (accepting, closing, absent). Oracle: exactly one callback per request, an error whenever some batch's last attempt failed, no panic, the following request completes. Non-trivial = fail->success across a retry/reconnect, or a cancellation with a batch outstanding")
+	ev.C().Rule("fault enumeration + rapid: per HTTP backend variant (datadog, influxdb v1/v2, newrelic infra/insights/metrics, otlp, cloudwatch) every per-attempt outcome script of length <= 3 over {2xx, error status, transport error, 429 with Retry-After} x tail {recovers, keeps failing / keeps being throttled until the retry window ends} x batches per flush {0,1,3} x cancellation point {none, before the call, when the k-th attempt starts, while an attempt waits for its retry timer}, on a mock clock advanced whenever no callback has arrived; then random longer scripts, partly through a real MetricFlusher; sender.Sender with scripted connect/write outcomes; graphite and statsdaemon against loopback listeners (accepting, closing, absent). Oracle: exactly one callback per request, an error whenever some batch's last attempt failed, no panic, the following request completes. Non-trivial = fail->success across a retry/reconnect, or a cancellation with a batch outstanding")
 	vt.Main(m)
 }
 
@@ -42,9 +43,12 @@ const (
 	ok outcomeT = iota
 	status5xx
 	transportErr
+	throttled // 429 with a Retry-After header
 )
 
-func (o outcomeT) String() string { return [...]string{"2xx", "5xx", "neterr"}[o] }
+func (o outcomeT) String() string { return [...]string{"2xx", "5xx", "neterr", "429+retry-after"}[o] }
+
+var allOutcomes = []outcomeT{ok, status5xx, transportErr, throttled}
 
 type cancelPoint int
 
@@ -63,6 +67,7 @@ func (c cancelPoint) String() string {
 type faultCase struct {
 	variant string
 	script  []outcomeT
+	tail    outcomeT // outcome of every attempt after the script (ok = recovers)
 	tailOK  bool
 	series  int
 	cancel  cancelPoint
@@ -73,7 +78,7 @@ func (c faultCase) String() string {
 	for _, o := range c.script {
 		s = append(s, o.String())
 	}
-	tail := "then-fail"
+	tail := "then-always-" + c.tail.String()
 	if c.tailOK {
 		tail = "then-2xx"
 	}
@@ -132,7 +137,10 @@ func runFlush(kit *bk.Kit, c faultCase, base int) result {
 		if i < len(c.script) {
 			o = c.script[i]
 		} else if !c.tailOK {
-			o = status5xx
+			o = c.tail
+			if o == ok {
+				o = status5xx
+			}
 		}
 		key := string(a.Body)
 		if o != ok {
@@ -153,6 +161,8 @@ func runFlush(kit *bk.Kit, c faultCase, base int) result {
 			return fakes.Reply{Status: 503, Body: []byte("scripted failure")}
 		case transportErr:
 			return fakes.Reply{Err: fakes.ErrTransport}
+		case throttled:
+			return fakes.Reply{Status: 429, Body: []byte("slow down"), Header: http.Header{"Retry-After": []string{"1"}}}
 		}
 		if strings.HasPrefix(c.variant, "cloudwatch") {
 			return fakes.Reply{Status: 200, Body: []byte(cwOK)}
@@ -266,7 +276,7 @@ func allScripts(maxLen int) [][]outcomeT {
 		if len(cur) == maxLen {
 			return
 		}
-		for _, o := range []outcomeT{ok, status5xx, transportErr} {
+		for _, o := range allOutcomes {
 			next := append(append([]outcomeT(nil), cur...), o)
 			out = append(out, next)
 			rec(next)
@@ -302,10 +312,10 @@ func TestHTTPFaultEnumeration(t *testing.T) {
 		kit := newKit(t, variant, "15s")
 		count := 0
 		for _, sc := range scripts {
-			for _, tailOK := range []bool{true, false} {
+			for _, tail := range []outcomeT{ok, status5xx, throttled} {
 				for _, series := range []int{0, 1, 3} {
 					for _, cp := range []cancelPoint{noCancel, cancelBefore, cancelAtAttempt1, cancelAtAttempt2, cancelInRetryWait} {
-						c := faultCase{variant: variant, script: sc, tailOK: tailOK, series: series, cancel: cp}
+						c := faultCase{variant: variant, script: sc, tailOK: tail == ok, tail: tail, series: series, cancel: cp}
 						r := runFlush(kit, c, 0)
 						judge(t, c, r, "enumerated")
 						// a failed / cancelled flush does not prevent the following one
@@ -348,10 +358,10 @@ type oneShotProc struct{ mm *gostatsd.MetricMap }
 
 type fixedAgg struct{ mm *gostatsd.MetricMap }
 
-func (a fixedAgg) ReceiveMap(*gostatsd.MetricMap)  {}
-func (a fixedAgg) Flush(time.Duration)             {}
-func (a fixedAgg) Process(f statsd.ProcessFunc)    { f(a.mm) }
-func (a fixedAgg) Reset()                          {}
+func (a fixedAgg) ReceiveMap(*gostatsd.MetricMap) {}
+func (a fixedAgg) Flush(time.Duration)            {}
+func (a fixedAgg) Process(f statsd.ProcessFunc)   { f(a.mm) }
+func (a fixedAgg) Reset()                         {}
 func (p oneShotProc) Process(ctx context.Context, fn statsd.DispatcherProcessFunc) gostatsd.Wait {
 	fn(0, fixedAgg{p.mm})
 	return func() {}
@@ -370,11 +380,12 @@ func TestHTTPFaultsRandom(t *testing.T) {
 		var descs []string
 		nt := false
 		for f := 0; f < flushes; f++ {
-			c := faultCase{variant: variant, tailOK: rapid.Bool().Draw(t, "tail-ok"), series: rapid.SampledFrom([]int{0, 1, 2, 3, 5}).Draw(t, "series"),
+			tl := rapid.SampledFrom([]outcomeT{ok, ok, status5xx, transportErr, throttled}).Draw(t, "tail")
+			c := faultCase{variant: variant, tailOK: tl == ok, tail: tl, series: rapid.SampledFrom([]int{0, 1, 2, 3, 5}).Draw(t, "series"),
 				cancel: cancelPoint(rapid.IntRange(0, 4).Draw(t, "cancel"))}
 			c.script = make([]outcomeT, rapid.IntRange(0, 8).Draw(t, "script-len"))
 			for i := range c.script {
-				c.script[i] = outcomeT(rapid.IntRange(0, 2).Draw(t, "o"))
+				c.script[i] = outcomeT(rapid.IntRange(0, 3).Draw(t, "o"))
 			}
 			descs = append(descs, c.String()+" elapsed="+elapsed)
 			if rapid.Bool().Draw(t, "through-flusher") && c.cancel == noCancel {
@@ -415,7 +426,10 @@ func flushThroughFlusher(t vt.TB, kit *bk.Kit, c faultCase) result {
 		if i < len(c.script) {
 			o = c.script[i]
 		} else if !c.tailOK {
-			o = status5xx
+			o = c.tail
+			if o == ok {
+				o = status5xx
+			}
 		}
 		key := string(a.Body)
 		if o != ok {
@@ -429,6 +443,8 @@ func flushThroughFlusher(t vt.TB, kit *bk.Kit, c faultCase) result {
 			return fakes.Reply{Status: 503}
 		case transportErr:
 			return fakes.Reply{Err: fakes.ErrTransport}
+		case throttled:
+			return fakes.Reply{Status: 429, Header: http.Header{"Retry-After": []string{"1"}}}
 		}
 		if strings.HasPrefix(c.variant, "cloudwatch") {
 			return fakes.Reply{Status: 200, Body: []byte(cwOK)}
@@ -487,10 +503,10 @@ func flushThroughFlusher(t vt.TB, kit *bk.Kit, c faultCase) result {
 
 type scriptedConn struct {
 	net.Conn
-	writes   *int32
-	failAt   int32
-	written  *bytes.Buffer
-	mu       *sync.Mutex
+	writes  *int32
+	failAt  int32
+	written *bytes.Buffer
+	mu      *sync.Mutex
 }
 
 func (c scriptedConn) Write(b []byte) (int, error) {
@@ -503,7 +519,7 @@ func (c scriptedConn) Write(b []byte) (int, error) {
 	c.mu.Unlock()
 	return len(b), nil
 }
-func (c scriptedConn) Close() error                       { return nil }
+func (c scriptedConn) Close() error                     { return nil }
 func (c scriptedConn) SetWriteDeadline(time.Time) error { return nil }
 
 func TestSenderFaults(t *testing.T) {
